@@ -14,12 +14,33 @@
                                          termination is not proved, stopped within the model's fuel;
      no_symbol_pred_clash_full t         no symbol of an emitted formula equals a 0-ary predicate of
                                          its problem; outside this class rename_conflicting_symbols
-                                         changes the meaning (finding F8b, Properties/C03.v). *)
+                                         changes the meaning (finding F8b, Properties/C03.v): the
+                                         renamed constant s__s is then ordered by its NEW name in the
+                                         symbol_order chain, which is false for the constant it stands
+                                         for (C12_chain_refuted_after_rename, Properties/C12.v).
+
+   HOW TO READ THE STATEMENTS (audit A9).
+   * "refuted" / "irrefutable" is about STANDARD structures: `refutes_some FI M pbs` evaluates the named
+     formulas of a problem (cvalid: classical truth over the infinite standard domain of Sem/Domain.v,
+     integers = Z, symbols = strings in byte order).  `forall FI M, ~ refutes_some FI M pbs` (lhs of
+     C03_strong) is VALIDITY OVER THE STANDARD DOMAIN, not first-order provability - it is what a
+     sound prover establishes when it reports `Theorem` from the emitted axioms, provided those axioms
+     are true in the standard structure; it is NOT claimed that the prover finds a proof.
+   * The preamble (standard_interpretation.p) and the symbol_order chain are NOT among the formulas
+     `refutes` looks at: they enter by fixing the domain.  That they are true in the standard
+     structure is C12 (C12_preamble, C12_chain_true / C12_chain_true_original - the latter only inside
+     the no-clash class, which is the premise no_symbol_pred_clash_full here); that the emitted TFF
+     text means the formulas evaluated here is C06 / C09.  "provable by vampire => strongly
+     equivalent" is the composition C06 + C12 + C03_strong and is only cited, not a Coq theorem.
+   * DUniversal: C03 says `refuted iff sub /\ (forward difference \/ backward difference)`; it does not
+     say WHICH problem family is refuted.  That is separated by C03_universal_families below (the
+     problems of --direction universal are the forward problems followed by the backward problems)
+     together with C03_forward / C03_backward. *)
 From Coq Require Import List String ZArith Bool.
 Import ListNotations.
 From Anthem Require Import Base.ISet Syntax.Fol Syntax.Asp Sem.Domain Sem.Sat Sem.AspRef Model.Problem
   Model.Strong Model.StrongFull Proofs.SemBase Proofs.DecomposeOk Proofs.StrongOk Proofs.TauStarProgram
-  Proofs.StrongFullOk.
+  Proofs.StrongFullOk Proofs.StrongFamilies.
 Open Scope string_scope.
 
 (* the general statement (any direction) *)
@@ -66,6 +87,18 @@ Theorem C03_strong :
      (forall H T, sub H T -> (ref_sat H T (st_left t) <-> ref_sat H T (st_right t)))).
 Proof. exact C03_strong_proof. Qed.
 Print Assumptions C03_strong.
+
+(* the problems of --direction universal are the forward problems followed by the backward problems
+   (with_direction t d: the same task with direction d) *)
+Theorem C03_universal_families :
+  forall (t : strong_task) (pbs : list problem),
+    st_direction t = DUniversal -> strong_decompose_full t = SOk pbs ->
+    exists pf pb,
+      strong_decompose_full (with_direction t DForward) = SOk pf /\
+      strong_decompose_full (with_direction t DBackward) = SOk pb /\
+      pbs = (pf ++ pb)%list.
+Proof. exact universal_families. Qed.
+Print Assumptions C03_universal_families.
 
 (* the SOk case is Model/Strong.v's assembly over the real components, and implies that neither
    program is in the overflow class *)
